@@ -196,7 +196,7 @@ impl<'a> Parser<'a> {
         let rule_file = rule.value.trim();
         let mut file_path = self.path.to_path_buf();
         file_path.set_file_name(rule_file);
-        file_path.set_extension(RULE_FILE_EXT);
+        util::set_default_extension(&mut file_path, RULE_FILE_EXT);
 
         let filter = self.get_filter()?;
 
